@@ -387,6 +387,9 @@ class Evaluator:
             if f2.kind == "Closure" and short.startswith("core::ops::function::Fn") and len(args) == 2 and isinstance(args[1], tuple):
                 args = [args[0]] + list(args[1])    # rust-call ABI: the argument tuple is spread over the closure's parameters
             return self.call_fn(f2, args)
+        if short.split("::<")[0] in ("core::ops::deref::Deref::deref", "core::ops::deref::DerefMut::deref_mut", "core::convert::AsRef::as_ref",
+                                     "core::borrow::Borrow::borrow") and args and isinstance(args[0], Ref):
+            return args[0]      # smart-pointer deref: the pointee is addressed by the same access path
         if short in ("core::cmp::PartialEq::eq", "core::cmp::PartialEq::ne"):
             a, b = self.deref_val(args[0]), self.deref_val(args[1])
             r = self.binop("Eq", a, b)
